@@ -10,6 +10,12 @@ R12.2 every codon enumeration is the product of bases in TCAG (UCAG) order, zipp
 R12.4b inside a translation entry point every call of another entry point of the family (get_translation, trim_stop_codon(s), has_terminal_stop) is given ...
 R12.8 every complement implementation derives its result from the complement table (a lookup through the table-built converter / str.translate, or ...
 R12.9 index arrays are typed by the size of the alphabet (get_array_type(len(<alphabet>))), never by the size of the data being encoded: a dtype that grows ...
+
+Added later in build rounds 2-3 (see DESIGN.md section 3, round-2/3 table):
+R12.10 translation entry points translate the *realised* sequence (str(seq) / array(seq) / bytes(seq), which reverse and complement a minus-strand view): ...
+R12.11 answers cached by one molecular type / genetic code / alphabet are not served to another: no class-level mutable container of these classes is ...
+R12.12 strand-relative framing in the new GeneticCode.translate: `start` and the truncation to a multiple of three are positions on the sequence that is ...
+R12.13 the table-driven byte converters fix the element width themselves: an index array handed to array_to_bytes is cast to the alphabet's 1-byte type ...
 """
 
 from __future__ import annotations
